@@ -33,7 +33,14 @@ def _build(spec):
     if c is None:
         return None, Out(nontrivial=False, classes=["discarded_overlap"])
     try:
-        ph = Phonopy(c["cell"], supercell_matrix=np.array(spec["smat"]), primitive_matrix=_pmat(spec["pmat"], c), log_level=0)
+        import warnings
+
+        kw = {}
+        if spec.get("fc_decimals") is not None:  # deprecated-but-supported constructor argument (rounds force constants when they are PRODUCED)
+            kw["force_constants_decimals"] = spec["fc_decimals"]
+        with warnings.catch_warnings():
+            warnings.simplefilter("ignore")
+            ph = Phonopy(c["cell"], supercell_matrix=np.array(spec["smat"]), primitive_matrix=_pmat(spec["pmat"], c), log_level=0, **kw)
     except Exception as e:
         return None, Out(nontrivial=False, rejected=True, classes=["ctor_rejected:" + type(e).__name__])
     return ph, None
@@ -74,7 +81,8 @@ def periodic_random(rng, p2s, tperms, n):
 @st.composite
 def base(draw, tier, max_atoms=32):
     b = draw(crystal_with_supercell(max_atoms=max_atoms if tier == "quick" else 48, max_unit=6, max_det=8))
-    b.update(key=draw(keys), pmat=draw(st.sampled_from(["none", "auto", "centring"])), level=draw(st.integers(1, 3)))
+    b.update(key=draw(keys), pmat=draw(st.sampled_from(["none", "auto", "centring"])), level=draw(st.integers(1, 3)),
+             fc_decimals=draw(st.sampled_from([None, None, None, 8, 5])))
     return b
 
 
@@ -121,6 +129,16 @@ def run_full(spec):
     ph.symmetrize_force_constants(level=level, show_drift=False)
     if np.abs(ph.force_constants - fcs).max() / sc > 1e-12:
         return Out(ok=False, msg="Phonopy.symmetrize_force_constants changes already-symmetric force constants")
+    # the API route on arbitrary input: the result obeys the invariances whatever constructor options the object carries
+    fr = rng.normal(size=(n, n, 3, 3))
+    ph.force_constants = fr.copy()
+    ph.symmetrize_force_constants(level=level, show_drift=False)
+    fa = ph.force_constants
+    s0 = np.abs(fa).max()
+    viol = max(np.abs(fa.sum(axis=1)).max(), np.abs(fa.sum(axis=0)).max(), np.abs(fa - fa.transpose(1, 0, 3, 2)).max()) / s0
+    if viol > 1e-11:
+        return Out(ok=False, msg="Phonopy.symmetrize_force_constants(level=%d) output violates sum rules / permutation symmetry: %.3e "
+                                 "(force_constants_decimals=%r)" % (level, viol, spec.get("fc_decimals")))
     # arbitrary (non-periodic) input, also input that already obeys only part of the invariances
     worst = 0.0
     for kind in ("random", "drift_free", "perm_only", "sparse"):
@@ -141,7 +159,7 @@ def run_full(spec):
             return Out(ok=False, msg="symmetrize_force_constants(level=%d) is not idempotent on %s input: %.3e" % (level, kind, idem))
         worst = max(worst, row, col, perm, idem)
     row = col = perm = idem = worst
-    return Out(ok=True, nontrivial=n >= 2, classes=["level:%d" % level, _mult_class(ph)],
+    return Out(ok=True, nontrivial=n >= 2, classes=["level:%d" % level, _mult_class(ph), "fc_decimals:%s" % spec.get("fc_decimals")],
                info={"err": max(e, row, col, perm, idem)})
 
 
@@ -226,9 +244,21 @@ def run_compact(spec):
     e = np.abs(compact_fc_to_full_fc(prim, comp) - full).max() / sc
     if e > 1e-12:
         return Out(ok=False, classes=classes, msg="compact_fc_to_full_fc differs from our own expansion by translations: %.3e" % e)
-    e = np.abs(full_fc_to_compact_fc(prim, full) - comp).max() / sc
+    from vlib.case import present
+
+    comp_from_full = full_fc_to_compact_fc(prim, present(full, spec.get("full_layout", "array")))
+    e = np.abs(comp_from_full - comp).max() / sc
     if e > 1e-14:
         return Out(ok=False, classes=classes, msg="full_fc_to_compact_fc is not the row selection p2s_map: %.3e" % e)
+    # the compact array it returns is a valid input of the compact routines, whatever the memory layout of the full array was
+    cc = comp_from_full
+    symmetrize_compact_force_constants(cc, prim, level=spec["level"])
+    cref = np.array(comp, copy=True, order="C")
+    symmetrize_compact_force_constants(cref, prim, level=spec["level"])
+    e = np.abs(np.asarray(cc) - cref).max() / sc
+    if e > 1e-12:
+        return Out(ok=False, classes=classes, msg="compact symmetriser on the output of full_fc_to_compact_fc(%s full array) differs from the same "
+                                                   "on a fresh compact array: %.3e" % (spec.get("full_layout", "array"), e))
     # transpose kernel (behind show_drift_force_constants)
     s2pp, nsym = get_nsym_list_and_s2pp(prim.s2p_map, prim.p2p_map, prim.atomic_permutations)
     c = comp.copy()
@@ -277,6 +307,7 @@ def compact_specs(draw, tier):
     b["array"] = draw(st.sampled_from(["periodic", "periodic", "symmetric", "drift_free", "perm_only"]))
     b["via_api"] = draw(st.booleans())
     b["reorder"] = draw(st.sampled_from([False, False, True]))
+    b["full_layout"] = draw(st.sampled_from(["array", "array", "fortran", "transposed"]))
     return b
 
 
